@@ -258,6 +258,11 @@ def run_kind(k, casefile, outdir, san=False):
     exe = os.path.join(BUILD, "bin", "seq%s_%d" % ("_san" if san else "", k))
     out = os.path.join(outdir, os.path.basename(casefile) + (".san" if san else "") + ".out")
     env = dict(os.environ, ASAN_OPTIONS="detect_leaks=1:abort_on_error=0", UBSAN_OPTIONS="print_stacktrace=1")
+    if not os.path.exists(exe):
+        # the harness did not build against the current headers (reported as a broken obligation by the caller)
+        open(out, "w").close()
+        return dict(kind=k, casefile=casefile, outfile=out, crashed=False, rc=0, stderr="harness not built", diffs=[],
+                    ncases=0, nok=0, nlines=0, driver_rc=0, driver_err="", draws=[])
     with open(out, "w") as fo:
         try:
             p = subprocess.run([exe, casefile], stdout=fo, stderr=subprocess.PIPE, text=True, timeout=900, env=env)
@@ -420,7 +425,7 @@ def sequential_part(prop, tier, seed, res):
         ok2, lg2 = ensure_harness(kinds, san=True)
         ok, lg = ok and ok2, lg + lg2
     if not ok:
-        res["broken"].append(dict(what="harness build", detail=lg[-3000:]))
+        res["broken"].append(dict(what="the correspondence harness no longer builds against the current headers", detail=lg[-3000:]))
     known = load_known()
     stats_all = {}
     from concurrent.futures import ThreadPoolExecutor
@@ -513,6 +518,9 @@ def sequential_part(prop, tier, seed, res):
 def run_harness_only(k, casefile, outdir):
     exe = os.path.join(BUILD, "bin", "seq_%d" % k)
     out = casefile + ".out"
+    if not os.path.exists(exe):
+        open(out, "w").close()
+        return out, 0, "harness not built"
     with open(out, "w") as fo:
         try:
             p = subprocess.run([exe, casefile], stdout=fo, stderr=subprocess.PIPE, text=True, timeout=900)
